@@ -113,6 +113,7 @@ package setec
 //@   ensures [C12 lookupint.values-kept] !old(has(s.active.m, name)) ==> valuesKept(s)
 //@   ensures [C16 lookupint.success] err == nil ==> (sec != nil && has(s.active.m, name) && has(s.active.f, name))
 //@   ensures [C16 lookupint.fail] err != nil ==> sec == nil
+//@   ensures [C16 lookupint.every-failure-is-the-outcome-of-a-flight] err != nil ==> (defined(call_Do_1) && err == call_Do_1)
 //@   ensures [C16 lookupint.not-failed-by-others-cancellation] (err != nil && (errIs(err, context.DeadlineExceeded) || errIs(err, context.Canceled)) && ctxErrAt(ctx, clock) == nil) ==> sfWon
 //@   at call Do: assert [C11,C12,C16 lookupint.flight-is-keyed-by-the-name-and-apart-from-polls] arg_key == "lookup:" + name
 //@   loop 0
@@ -320,6 +321,7 @@ package setec
 //@     invariant [names] (forall j int :: (0 <= j && j < len(secrets)) ==> secrets[j] != "") && (forall i int, j int :: (0 <= i && i < j && j < len(secrets)) ==> secrets[i] != secrets[j]) &&
 //@        (forall i int :: (0 <= i && i < len(cfg.Secrets)) ==> (exists j int :: 0 <= j && j < len(secrets) && secrets[j] == cfg.Secrets[i]))
 //@     invariant [nil-only-if-stubbed] forall n string :: (has(s.active.m, n) && s.active.m[n] == nil) ==> (exists j int :: 0 <= j && j < iter && secrets[j] == n)
+//@     invariant [C13 newstore.a-flush-is-wanted-iff-a-declared-name-was-missing-from-the-cache] wantFlush == (exists j int :: 0 <= j && j < iter && s.active.m[secrets[j]] == nil)
 //@     invariant [done] forall j int :: (0 <= j && j < iter) ==> (has(s.active.m, secrets[j]) && (s.active.m[secrets[j]] != nil ==> s.active.m[secrets[j]].Declared))
 //@   loop 1
 //@     invariant [state] s != nil && storeInv(s) && !s.active.Mutex && ctx != nil && s.client == cfg.Client && cfg.Client != nil && s.allowLookup == cfg.AllowLookup && s.expiryAge == cfg.ExpiryAge
@@ -334,6 +336,7 @@ package setec
 //@   ensures [C12,C20 fapply.inv] storeInv(s) && !s.active.Mutex && handlesKept(s) && valuesKept(s)
 //@   ensures [C16 fapply.gate] (!old(has(s.active.m, fullName)) && !s.allowLookup) ==> (err != nil && net == old(net) && sameEntries(s))
 //@   ensures [C20 fapply.known-no-request] old(has(s.active.m, fullName)) ==> net == old(net)
+//@   at call Unmarshal: assert [C20 fapply.a-json-field-is-decoded-from-the-whole-value-trailing-bytes-are-an-error] bytes(arg_data) == bytes(call_Get)
 //@   at call ValueOf: assert [C12,C18,C20 fapply.bytes-private-copy] boxfresh(arg_v)
 //@   at call SetBytes: assert [C12,C18,C20 fapply.setbytes-private-copy] fresh(arg_x)
 //@   ensures [C20 fapply.plain-field-is-always-stored] (err == nil && !f.isJSON && f.unmarshal == nil) ==> fieldStores == old(fieldStores) + 1
@@ -465,6 +468,8 @@ package setec
 //@   ensures [C15 updater.replace-on-success] (old(chlen(u.w.ready)) == 1 && lastBuilderErr == nil) ==> (u.err == nil && v == u.value && closes <= old(closes) + 1)
 //@   ensures [C15 updater.consumes-exactly-the-pending-signal] slotRecvs == old(slotRecvs) + old(chlen(u.w.ready))
 //@   ensures [C15 updater.unlocked] !u.mu
+//@   ensures [C15 updater.one-critical-section-from-the-signal-to-the-installed-value] lockOps == old(lockOps) + 1
+//@   at call newValue: assert [C15 updater.the-value-is-built-under-the-updaters-lock] u.mu
 // Err only reports: it neither consumes a pending signal nor clears the recorded error
 //@ func (*Updater).Err(u) (r)
 //@   requires u != nil && !u.mu
